@@ -328,7 +328,12 @@ pub(crate) fn search_verify<const N: usize>(seed: u64) -> Option<String> {
     let l = if N == 512 { 625 } else { 1239 };
     let vs: [i16; 12] = [1, -1, 130, -130, 6144, -6144, 6145, -6145, 12159, -12159, 5000, -7000];
     for (vi, v) in vs.iter().enumerate() {
-        for delta in [-1i64, 0, 1, -(bound / 2)] {
+        // around the bound; and (for v = +-1) far above it, where a narrower accumulator would wrap:
+        // total norm 2^32, 2^32 + 5, 2^31 + 5, 2^33 + 7 (all must be rejected)
+        let far: [i64; 4] = [(1i64 << 32) - bound, (1i64 << 32) + 5 - bound, (1i64 << 31) + 5 - bound, (1i64 << 33) + 7 - bound];
+        let mut deltas: Vec<i64> = vec![-1i64, 0, 1, -(bound / 2)];
+        if vi < 2 { deltas.extend(far.iter().filter(|d| **d > 0 && **d + bound <= (N as i64) * 6144 * 6144)); }
+        for delta in deltas {
             let mut s2 = vec![0i16; N];
             s2[0] = *v;
             let own = (*v as i64) * (*v as i64);
@@ -670,6 +675,7 @@ pub(crate) fn search_sk(seed: u64) -> Option<String> {
     let mut cands: Vec<(Vec<u8>, bool)> = vec![(base.clone(), false), (vec![], true), (vec![0x59], true), (base[..base.len() - 1].to_vec(), true)];
     { let mut x = base.clone(); x.push(0); cands.push((x, true)); }
     for hb in 0..8 { let mut x = base.clone(); x[0] ^= 1 << hb; cands.push((x, true)); }
+    for hd in [0x5au8, 0x58, 0x50, 0x5f, 0x09, 0x0a, 0xa9] { let mut x = base.clone(); x[0] = hd; cands.push((x, true)); }
     // reserved minimum value 10..0 in a field of f (width 6), g (width 6), F (width 8)
     for (start, w, idx) in [(0usize, 6usize, 0usize), (0, 6, 511), (512 * 6, 6, 3), (2 * 512 * 6, 8, 0), (2 * 512 * 6, 8, 511)] {
         let mut x = base.clone();
